@@ -581,6 +581,107 @@ impl<S: Service> Scenario for ReqRes2<S> {
 }
 
 // ------------------------------------------------------------------------------------------
+// request-response, one client, TWO servers, expired-connection buffer of the client = 1
+//   slots: node svc client server1 server2 pending_b pending_a response_b
+//   after construction the response connection of server1 has a delivered, unreceived response on
+//   channel 0 (pending_a) and the one of server2 has the same plus a borrowed Response on channel 1
+//   (response_b).  When both servers go away the client can keep only ONE expired connection: it
+//   must keep the one with the borrow (documented: undelivered data of the other one is discarded
+//   with a warning).  pending_a never receives here (its data must stay in the connections), so
+//   only the canaries are probed: the borrowed Response must stay readable and unchanged.
+// ------------------------------------------------------------------------------------------
+struct RrOvf<S: Service> {
+    node: Option<Node<S>>,
+    svc: Option<request_response::PortFactory<S, u64, (), u64, ()>>,
+    client: Option<Client<S, u64, (), u64, ()>>,
+    server1: Option<Server<S, u64, (), u64, ()>>,
+    server2: Option<Server<S, u64, (), u64, ()>>,
+    pending_b: Option<PendingResponse<S, u64, (), u64, ()>>,
+    pending_a: Option<PendingResponse<S, u64, (), u64, ()>>,
+    response_b: Option<Response<S, u64, ()>>,
+}
+
+impl<S: Service> RrOvf<S> {
+    fn build(cfg: &Config, _nn: usize) -> Self {
+        let mut cfg = cfg.clone();
+        cfg.defaults.request_response.client_expired_connection_buffer = 1;
+        let node = NodeBuilder::new().name(&node_name(0)).config(&cfg).create::<S>().expect("node");
+        let svc = node
+            .service_builder(&service_name())
+            .request_response::<u64, u64>()
+            .max_servers(2)
+            .max_loaned_requests(4)
+            .max_active_requests_per_client(4)
+            .max_response_buffer_size(4)
+            .max_borrowed_responses_per_pending_response(4)
+            .create()
+            .expect("create service");
+        let client = svc.client_builder().create().expect("client");
+        let server1 = svc.server_builder().create().expect("server1");
+        let server2 = svc.server_builder().create().expect("server2");
+        let pending_a = client.loan_uninit().expect("loan").write_payload(REQ_A).send().expect("send request a");
+        let pending_b = client.loan_uninit().expect("loan").write_payload(REQ_B).send().expect("send request b");
+        let a1a = server1.receive().expect("receive").expect("request a at server1");
+        let a1b = server1.receive().expect("receive").expect("request b at server1");
+        let a2a = server2.receive().expect("receive").expect("request a at server2");
+        let a2b = server2.receive().expect("receive").expect("request b at server2");
+        a1a.loan_uninit().expect("loan").write_payload(0xA100).send().expect("server1 answers a");
+        a2b.loan_uninit().expect("loan").write_payload(CANARY_RESP).send().expect("server2 answers b");
+        let response_b = pending_b.receive().expect("receive response").expect("response b");
+        a2a.loan_uninit().expect("loan").write_payload(0xA200).send().expect("server2 answers a");
+        drop(a1a); drop(a1b); drop(a2a); drop(a2b);
+        RrOvf { node: Some(node), svc: Some(svc), client: Some(client), server1: Some(server1), server2: Some(server2),
+                pending_b: Some(pending_b), pending_a: Some(pending_a), response_b: Some(response_b) }
+    }
+}
+
+impl<S: Service> Scenario for RrOvf<S> {
+    fn names(&self) -> Vec<&'static str> {
+        vec!["node", "svc", "client", "server1", "server2", "pending_b", "pending_a", "response_b"]
+    }
+    fn alive(&self, k: usize) -> bool {
+        match k { 0 => self.node.is_some(), 1 => self.svc.is_some(), 2 => self.client.is_some(), 3 => self.server1.is_some(), 4 => self.server2.is_some(), 5 => self.pending_b.is_some(), 6 => self.pending_a.is_some(), 7 => self.response_b.is_some(), _ => false }
+    }
+    fn drop_slot(&mut self, k: usize) {
+        match k { 0 => drop(self.node.take()), 1 => drop(self.svc.take()), 2 => drop(self.client.take()), 3 => drop(self.server1.take()), 4 => drop(self.server2.take()), 5 => drop(self.pending_b.take()), 6 => drop(self.pending_a.take()), 7 => drop(self.response_b.take()), _ => {} }
+    }
+    fn smoke(&mut self, k: usize, round: u64) -> Result<(), String> {
+        match k {
+            0 => node_smoke(self.node.as_ref().unwrap()),
+            1 => {
+                let s = self.svc.as_ref().unwrap();
+                let mut c = 0;
+                res(s.nodes(|_| { c += 1; CallbackProgression::Continue }))?;
+                if c == 0 { Err("service-lists-no-node".into()) } else { Ok(()) }
+            }
+            2 => {
+                // sending lets the client notice servers that went away
+                let c = self.client.as_ref().unwrap();
+                drop(res(res(c.loan_uninit())?.write_payload(8000 + round).send())?);
+                Ok(())
+            }
+            3 | 4 => {
+                let s = if k == 3 { self.server1.as_ref().unwrap() } else { self.server2.as_ref().unwrap() };
+                while let Some(a) = res(s.receive())? {
+                    let v = safe_read_u64(a.payload() as *const u64)?;
+                    if !(8000..9000).contains(&v) { return Err(format!("received-{:x}", v)); }
+                }
+                Ok(())
+            }
+            5 => {
+                // polls (nothing was sent to it after response_b): also lets the client update its connections
+                let p = self.pending_b.as_ref().unwrap();
+                canary(p.payload() as *const u64, REQ_B)?;
+                match res(p.receive())? { None => Ok(()), Some(r) => Err(format!("received-{:x}", safe_read_u64(r.payload() as *const u64)?)) }
+            }
+            6 => canary(self.pending_a.as_ref().unwrap().payload() as *const u64, REQ_A),
+            7 => canary(self.response_b.as_ref().unwrap().payload() as *const u64, CANARY_RESP),
+            _ => Ok(()),
+        }
+    }
+}
+
+// ------------------------------------------------------------------------------------------
 // blackboard
 // ------------------------------------------------------------------------------------------
 struct Bb<S: Service> {
@@ -891,7 +992,7 @@ fn nth_permutation(n: usize, mut idx: u64) -> Vec<usize> {
 }
 
 fn nslots_of(pattern: &str, nn: usize) -> usize {
-    2 * nn + match pattern { "pubsub" => 4, "event" => 2, "reqres" => if nn == 1 { 5 } else { 4 }, "blackboard" => 4, "reqres2" => 7, _ => 0 }
+    2 * nn + match pattern { "pubsub" => 4, "event" => 2, "reqres" => if nn == 1 { 5 } else { 4 }, "blackboard" => 4, "reqres2" => 7, "rrovf" => 6, _ => 0 }
 }
 
 fn orders(a: &[String], n: usize) -> Vec<Vec<usize>> {
@@ -927,13 +1028,13 @@ fn orders(a: &[String], n: usize) -> Vec<Vec<usize>> {
             let nshards: u64 = a[6].parse().unwrap();
             let seed: u64 = a[7].parse().unwrap();
             let count: u64 = a[8].parse().unwrap();
-            let srv = [3usize, 7, 8];
-            let cli = [0usize, 1, 2, 4, 5, 6];
+            let (srv, cli): (Vec<usize>, Vec<usize>) = if a[3] == "rrovf" { (vec![3, 4], vec![0, 1, 2, 5, 6, 7]) } else { (vec![3, 7, 8], vec![0, 1, 2, 4, 5, 6]) };
             let mut rng = Rng(seed ^ 0xFA17);
             let mut v = vec![];
             let mut idx = 0u64;
-            for so in 0..6u64 {
-                let sp = nth_permutation(3, so);
+            let nso: u64 = (1..=srv.len() as u64).product();
+            for so in 0..nso {
+                let sp = nth_permutation(srv.len(), so);
                 let ncli = if count == 0 { 720 } else { count };
                 for c in 0..ncli {
                     let cp = if count == 0 { nth_permutation(6, c) } else {
@@ -968,6 +1069,7 @@ fn run_variant<S: Service>(a: &[String], fs: bool) {
             "event" => run_perm::<S, Ev<S>>(variant, pattern, nn, fs, &order, case_no, &Ev::<S>::build, &Ev::<S>::recreate),
             "reqres" => run_perm::<S, ReqRes<S>>(variant, pattern, nn, fs, &order, case_no, &ReqRes::<S>::build, &ReqRes::<S>::recreate),
             "blackboard" => run_perm::<S, Bb<S>>(variant, pattern, nn, fs, &order, case_no, &Bb::<S>::build, &Bb::<S>::recreate),
+            "rrovf" => run_perm::<S, RrOvf<S>>(variant, pattern, 1, fs, &order, case_no, &RrOvf::<S>::build, &ReqRes::<S>::recreate),
             "reqres2" => run_perm::<S, ReqRes2<S>>(variant, pattern, 1, fs, &order, case_no, &ReqRes2::<S>::build, &ReqRes::<S>::recreate),
             p => panic!("unknown pattern {}", p),
         }
